@@ -35,7 +35,8 @@ class OctBinding(NativeKeyBinding):
     @classmethod
     def import_from_bytes(cls, value: bytes, password: Any | None = None) -> bytes:
         # security check
-        if value.startswith(POSSIBLE_UNSAFE_KEYS):
+        # key text read from a file or variable may be preceded by blanks or line breaks
+        if value.lstrip().startswith(POSSIBLE_UNSAFE_KEYS):
             warnings.warn("This key may not be safe to import")
         return value
 
